@@ -123,6 +123,27 @@ func init() {
 		}
 		return frameAns(t.CreateCommandData(cmd, Unhx(a[4])))
 	})
+	// simcalls <ver> <phone> <call> ...: any sequence of calls on one Terminal, D<cmd> = CreateDefaultCommandData
+	// (nil for a command without default body), C<cmd>:<body> = CreateCommandData
+	RegisterOp("simcalls", func(a []string) string {
+		t := newTerm(atoi(a[0]), a[1])
+		var out []string
+		for _, c := range a[2:] {
+			var f []byte
+			if c[0] == 'D' {
+				f = t.CreateDefaultCommandData(consts.JT808CommandType(atoi(c[1:])))
+			} else {
+				p := strings.SplitN(c[1:], ":", 2)
+				f = t.CreateCommandData(consts.JT808CommandType(atoi(p[0])), Unhx(p[1]))
+			}
+			if f == nil {
+				out = append(out, "nil")
+			} else {
+				out = append(out, Hx(f))
+			}
+		}
+		return "ok r=" + strings.Join(out, ",")
+	})
 	// simseq <ver> <phone> <count> <cmd>: <count> consecutive default frames of one Terminal
 	RegisterOp("simseq", func(a []string) string {
 		t := newTerm(atoi(a[0]), a[1])
@@ -434,6 +455,77 @@ func c20(c *Ctx) {
 		}
 		checkFrame(req, ver, phone, wantID, uint16(skip+1), f, body, false)
 		c.Count("custom frame")
+	}
+
+	// (2b) call sequences on one Terminal mixing default frames, custom frames and default calls for commands
+	// the simulator has no default body for (they return nil and must not consume a serial), at every position:
+	// the frames actually produced carry consecutive serials
+	noDefault := []uint16{0x0104, 0x0805, 0x0801, 0x0800, 0x8103, 0x0000, 0xffff, 0x9208, 0x1005, 0x8800}
+	isSupported := map[uint16]bool{}
+	for _, cmd := range supported {
+		isSupported[cmd] = true
+	}
+	ncalls := 150
+	if !quick {
+		ncalls = 3000
+	}
+	for i := 0; i < ncalls; i++ {
+		ver := 1 + g.rng.Intn(3)
+		ps := phonesFor(ver, false)
+		phone := ps[g.rng.Intn(len(ps))]
+		n := 2 + g.rng.Intn(10)
+		type callT struct {
+			tok  string
+			cmd  uint16
+			body []byte
+			def  bool
+		}
+		var calls []callT
+		for k := 0; k < n; k++ {
+			switch r := g.rng.Intn(10); {
+			case r < 4 || (i < 20 && k == i%n): // a default call that returns nil, at every position over the run
+				cmd := noDefault[g.rng.Intn(len(noDefault))]
+				if g.rng.Intn(4) == 0 {
+					cmd = uint16(g.rng.Intn(65536))
+				}
+				calls = append(calls, callT{tok: fmt.Sprintf("D%d", cmd), cmd: cmd, def: true})
+			case r < 7:
+				cmd := supported[g.rng.Intn(len(supported))]
+				calls = append(calls, callT{tok: fmt.Sprintf("D%d", cmd), cmd: cmd, def: true})
+			default:
+				cmd := uint16(1 + g.rng.Intn(65535))
+				b := g.rbytes(g.rng.Intn(40))
+				calls = append(calls, callT{tok: fmt.Sprintf("C%d:%s", cmd, Hx(b)), cmd: cmd, body: b})
+			}
+		}
+		var toks []string
+		for _, cl := range calls {
+			toks = append(toks, cl.tok)
+		}
+		req := fmt.Sprintf("simcalls %d %s %s", ver, phone, strings.Join(toks, " "))
+		ans := c.Do(req, true)
+		outs := strings.Split(strings.TrimPrefix(ans, "ok r="), ",")
+		if len(outs) != len(calls) {
+			viol("no-frame", "call sequence: number of results differs from the number of calls", req, ans, fmt.Sprint(len(calls)))
+			continue
+		}
+		want := uint16(0)
+		for k, cl := range calls {
+			produces := !cl.def || isSupported[cl.cmd]
+			if !produces {
+				if outs[k] != "nil" {
+					viol("unsupported", fmt.Sprintf("call %d: a default frame for a command the simulator does not support", k), req, outs[k], "nil")
+				}
+				continue
+			}
+			if outs[k] == "nil" {
+				viol("no-frame", fmt.Sprintf("call %d produced no frame", k), req, "nil", "a frame")
+				continue
+			}
+			want++
+			checkFrame(req, ver, phone, cl.cmd, want, Unhx(outs[k]), cl.body, cl.def)
+		}
+		c.Count("call sequence with nil calls")
 	}
 
 	// (3) the serial wrap: 70 000 consecutive frames of one Terminal, each decoded
